@@ -97,7 +97,8 @@ def execute(case):
         n = len(a["reference"]["digests"])
         futs = []
         for k in range(n + 1):
-            env = {"driver": "run" if k % 2 == 0 else "manual", "pollute": case.get("pollute", "none")}
+            env = {"driver": "run" if k % 2 == 0 else "manual", "pollute": case.get("pollute", "none"),
+                   "churn": (k % 3) + 1}            # heap churn in the resuming process (none in the reference run)
             job = {"mode": "resume", "program": case["program"], "path": os.path.join(tmp, f"{k}.pkl"), "env": env}
             futs.append(_INNER.submit(probes.spawn_worker, job, case["hashseed"] + 1 + k))
         return a, [f.result() for f in futs]
